@@ -25,6 +25,17 @@ TYPES = ['integer', 'float', 'number', 'boolean', 'string', 'list', 'dict', 'con
 OFS = ['anyof', 'allof', 'noneof', 'oneof']
 
 
+RULE_NAMES = {'allof', 'allow_unknown', 'allowed', 'anyof', 'check_with', 'coerce', 'contains', 'default', 'default_setter',
+              'dependencies', 'empty', 'excludes', 'forbidden', 'items', 'keysrules', 'max', 'maxlength', 'meta', 'min',
+              'minlength', 'noneof', 'nullable', 'oneof', 'purge_unknown', 'readonly', 'regex', 'rename', 'rename_handler',
+              'require_all', 'required', 'schema', 'type', 'valuesrules'}
+
+
+def is_mapping_schema(s):
+    """a field -> rules mapping (as opposed to a rules set)"""
+    return isinstance(s, dict) and all(isinstance(v, dict) for v in s.values()) and not (set(s) & RULE_NAMES)
+
+
 class Gen(object):
     def __init__(self, seed, max_depth=3, normalization=False, pool=None, p_mismatch=0.12,
                  registries=False, of_rules=True, deps=True):
@@ -258,7 +269,7 @@ class Gen(object):
                 return r.choice(al)
         if t is None:
             if 'schema' in rules:
-                t = 'dict' if isinstance(rules['schema'], dict) and all(isinstance(v, dict) for v in rules['schema'].values()) and rules['schema'] else 'list'
+                t = 'dict' if is_mapping_schema(rules['schema']) else 'list'
             elif 'items' in rules:
                 t = 'list'
             elif 'keysrules' in rules or 'valuesrules' in rules:
@@ -299,7 +310,7 @@ class Gen(object):
                 return [r.choice(rules['allowed']) for _ in range(n)]
             return [self.scalar() for _ in range(n)]
         if t == 'dict':
-            if 'schema' in rules and isinstance(rules['schema'], dict):
+            if 'schema' in rules and is_mapping_schema(rules['schema']):
                 return self.doc_for(rules['schema'], depth - 1, SUBFIELDS)
             n = r.randrange(0, 4)
             out = {}
@@ -342,9 +353,10 @@ class Gen(object):
                 l = l[:-1] if l and r.random() < 0.5 else l + [1]
             return l
         if 'schema' in rules and isinstance(rules['schema'], dict):
-            if rules.get('type') == 'dict':
+            if rules.get('type') == 'dict' and is_mapping_schema(rules['schema']):
                 return self.doc_for(rules['schema'], depth - 1, SUBFIELDS, p_valid=0.5)
-            return [self.value_for(rules['schema'], depth - 1, 0.5) for _ in range(r.randrange(1, 4))]
+            if not is_mapping_schema(rules['schema']):
+                return [self.value_for(rules['schema'], depth - 1, 0.5) for _ in range(r.randrange(1, 4))]
         wrong = {'integer': ['a', 1.5, [1]], 'string': [1, None, ['a']], 'list': ['ab', {}, 1], 'dict': [[], 'a', 1],
                  'boolean': [1, 'a'], 'float': ['a', None], 'number': [True, 'a']}
         t = rules.get('type')
